@@ -138,4 +138,40 @@ ends included. -/
 theorem C16_days_as_in_source (s e : Nat) : prefixDaysSrc s e = prefixDays s e := by
   simp [prefixDaysSrc, prefixDays, PlaybackModel.Source.dayCountKind, PlaybackModel.Source.dayCountPlus]
 
+/-! ### instants finer than a second
+
+The model counts whole seconds.  The correspondence check also runs the code on instants that carry sub-second parts
+(`harness/props/c16.py`, `instant`): second `t` becomes the microsecond instant `t * 10^6 + μ t` with `μ t < 10^6` a
+function of `t`.  That embedding keeps every comparison and every calendar day, so each statement above about seconds
+is the statement about those instants. -/
+
+/-- the microsecond instant the harness makes of second `t` -/
+def micro (μ : Nat → Nat) (t : Nat) : Nat := t * 1000000 + μ t
+
+/-- Order is kept both ways (`start <= last_modified`, `last_modified <= end`, `day <= end`: every comparison the lookup
+makes between two instants has the outcome it has on their seconds). -/
+theorem C16_subsecond_order (μ : Nat → Nat) (hμ : ∀ t, μ t < 1000000) (a b : Nat) :
+    (micro μ a ≤ micro μ b ↔ a ≤ b) ∧ (micro μ a < micro μ b ↔ a < b) := by
+  have ha := hμ a
+  have hb := hμ b
+  unfold micro
+  rcases Nat.lt_trichotomy a b with h | h | h
+  · constructor <;> constructor <;> intro <;> omega
+  · subst h; constructor <;> constructor <;> intro <;> omega
+  · constructor <;> constructor <;> intro <;> omega
+
+/-- … and so is the calendar day (a day has `86400 * 10^6` microseconds): the day folders enumerated for a window of such
+instants are those of `prefixDays` on their seconds. -/
+theorem C16_subsecond_day (μ : Nat → Nat) (hμ : ∀ t, μ t < 1000000) (t : Nat) :
+    micro μ t / (86400 * 1000000) = day t := by
+  have := hμ t
+  unfold micro day
+  omega
+
+/-- the sub-second parts the harness attaches are below one second, and differ from second to second -/
+example : (∀ t, (t * 7919 + 13) % 1000000 < 1000000) ∧ (86400 * 7919 + 13) % 1000000 ≠ (43200 * 7919 + 13) % 1000000 := by
+  constructor
+  · intro t; omega
+  · decide
+
 end Properties.C16
